@@ -132,13 +132,16 @@ func checkC10(r *Run) {
 		case "p9.clientFile.Close", "p9.clientFile.Remove":
 			// after the success of sendRecv(tclunk/tremove) and behind the CAS
 			var sr *ast.CallExpr
+			var srSite *Site
 			for _, cs := range m.callsIn(root, "p9.Client.sendRecv") {
-				sr = cs.Call
+				sr, srSite = cs.Call, cs
 			}
-			okS := sr != nil && m.callSucceeded(s.St, root, sr)
+			okS := sr != nil && (m.callSucceeded(s.St, root, sr) || m.succeededAt(s.St, srSite))
 			okReq := false
 			if sr != nil {
-				rs := norm(sr.Args[0])
+				// (the request may be a parameter of a helper shared by Close and Remove: it
+				// stands for what this method handed over)
+				rs := norm(srSite.argExpr(info, 0))
 				okReq = strings.HasPrefix(rs, "&tclunk{fid:") || strings.HasPrefix(rs, "&tremove{fid:")
 			}
 			okCAS := false
